@@ -57,7 +57,7 @@ DEVIATIONS = collections.OrderedDict([
     ("LateLockTrustsReply", "C11/FinalizeSound/late/rsig-by-other-key"),
     ("StrippedUnnoticed", "C11/FinalizeSound/late/proof-stripped"),
     ("LockTrustsSlate", "C11/FinalizeSound/S2/rsig-by-other-key"),
-    ("SenderKeyFromActive", "C11/ExportVerifies/verify-err:proof"),
+    ("SenderKeyFromActive", "C11/ExportVerifies/verify-err:proof/src#active/sa+ss"),
 ])
 TIERS = {"quick": "PaymentProof_quick.cfg", "thorough": "PaymentProof_thorough.cfg"}
 CHUNK = 2500          # trace lines per TLC trace-validation process
@@ -260,13 +260,18 @@ def run(tier, replay_path, t0):
         cases = [dict(c=info["c"], prog=info["prog"], mv=info.get("mv", []), fin=info.get("fin", ""), clean=info.get("clean", False))]
     else:
         cfg = TIERS[tier]
-        wit = witnesses()
-        # the repaired model must satisfy every monitor on the whole case space
-        if dev:
-            st, _ = model_check(cfg, [], d, tier, False)
-            log("  MC %s, repaired model (Dev = {}): %d states, %d transitions, all invariants hold (%.0fs)" % (cfg, st["states"], st["transitions"], st["wall_s"]))
-            stats.append(st)
-        st, cases = model_check(cfg, dev, d, tier, True)
+        # three TLC runs side by side: witnesses, the repaired model (must satisfy every monitor on the whole
+        # case space), the code model with the pinned deviations (generation + model counter-examples)
+        with concurrent.futures.ThreadPoolExecutor(max_workers=3) as ex:
+            f_wit = ex.submit(witnesses)
+            f_rep = ex.submit(model_check, cfg, [], d, tier, False) if dev else None
+            f_dev = ex.submit(model_check, cfg, dev, d, tier, True)
+            wit = f_wit.result()
+            if f_rep:
+                st, _ = f_rep.result()
+                log("  MC %s, repaired model (Dev = {}): %d states, %d transitions, all invariants hold (%.0fs)" % (cfg, st["states"], st["transitions"], st["wall_s"]))
+                stats.append(st)
+            st, cases = f_dev.result()
         log("  MC %s, code model (Dev = %s): %d states, %d transitions; %d cases emitted, %d model counter-examples (%.0fs)" % (
             cfg, dev or "{}", st["states"], st["transitions"], len(cases), sum(1 for c in cases if c["mv"]), st["wall_s"]))
         stats.append(st)
